@@ -63,9 +63,25 @@ impl P {
 }
 
 
+/// 0: the ordinary payload pools; 1: the pools of the `fragmentation_utf8` leg (multi-byte characters).
+pub static POOL_MODE: std::sync::atomic::AtomicU8 = std::sync::atomic::AtomicU8::new(0);
+
+fn utf8_mode() -> bool {
+    POOL_MODE.load(std::sync::atomic::Ordering::Relaxed) == 1
+}
+
 /// Recon payloads: empty (Extant prints as nothing), one byte, three bytes of which every prefix
 /// is itself valid Recon, a text that needs quoting and escapes.
 pub fn typed_payloads() -> Vec<P> {
+    if utf8_mode() {
+        // texts with blanks (printed quoted: no prefix of a quoted string is a complete value) made of
+        // 2, 3 and 4 byte characters
+        return vec![
+            P::typed("empty", Value::Extant),
+            P::typed("utf8-2", Value::Text(Text::new("\u{e9} \u{fc}"))),
+            P::typed("utf8-34", Value::Text(Text::new("\u{20ac} \u{1F600}"))),
+        ];
+    }
     vec![
         P::typed("empty", Value::Extant),
         P::typed("1B", Value::Int32Value(7)),
@@ -77,6 +93,9 @@ pub fn typed_payloads() -> Vec<P> {
 /// Raw payloads: empty, one byte that equals a frame tag, three bytes that are not UTF-8, and the
 /// escaped Recon text.
 pub fn raw_payloads() -> Vec<P> {
+    if utf8_mode() {
+        return vec![P::raw("empty", b""), P::raw("utf8-2", "\"\u{e9} \u{fc}\"".as_bytes()), P::raw("utf8-34", "\"\u{20ac} \u{1F600}\"".as_bytes())];
+    }
     vec![
         P::raw("empty", b""),
         P::raw("1B", &[0x04]),
